@@ -598,6 +598,12 @@ pub fn suite_serde(ctx: &Ctx, thorough: bool) {
             let mut b = base.clone().into_builder(); b.parts.qualifiers.retain(|k, _| k != drop); if let Ok(p) = b.build() { vals.push(p); }
             let mut b = base.clone().into_builder(); if let Ok(purl::qualifiers::Entry::Occupied(o)) = b.parts.qualifiers.entry(drop) { o.remove(); } if let Ok(p) = b.build() { vals.push(p); }
             let mut b = base.clone().into_builder(); b.parts.qualifiers.remove(drop); b.parts.qualifiers.insert("Z9", "z").unwrap(); if let Ok(p) = b.build() { vals.push(p); }
+            // keys added through the entry API, before, between and after the others
+            for new_key in ["A0", "bb", "cc", "zz"] {
+                let mut b = base.clone().into_builder(); if let Ok(e) = b.parts.qualifiers.entry(new_key) { e.or_insert("v"); } if let Ok(p) = b.build() { vals.push(p); }
+                let mut b = base.clone().into_builder(); if let Ok(e) = b.parts.qualifiers.entry(new_key) { e.or_insert_with(|| "w"); } if let Ok(p) = b.build() { vals.push(p); }
+                let mut b = base.clone().into_builder(); if let Ok(purl::qualifiers::Entry::Vacant(v)) = b.parts.qualifiers.entry(new_key) { v.insert("x"); } if let Ok(p) = b.build() { vals.push(p); }
+            }
         }
         for a in &vals {
             ctx.eval();
